@@ -81,6 +81,10 @@ func RandomSchemas(seed int64, n int) []*Schema {
 			}
 			allKinds := append(append([]T{}, scalarKinds...), tEnum, tMessage)
 			nFields := 3 + rng.Intn(10)
+			// now and then a message without fields (still usable as a field type: it can carry unknown fields)
+			if mi > 0 && rng.Intn(7) == 0 {
+				nFields = 0
+			}
 			fi := 0
 			usedNames := map[string]bool{}
 			fname := func() string {
@@ -125,8 +129,55 @@ func RandomSchemas(seed int64, n int) []*Schema {
 				}
 			}
 		}
+		// standard options that do not change the Go API, explicit packed=true, explicit json_name, deprecation marks
+		for _, m := range msgs {
+			if rng.Intn(8) == 0 {
+				m.msg.Options = &descriptorpb.MessageOptions{Deprecated: proto.Bool(true)}
+			}
+			for _, fd := range m.msg.Field {
+				if rng.Intn(4) != 0 {
+					continue
+				}
+				if fd.Options == nil {
+					fd.Options = &descriptorpb.FieldOptions{}
+				}
+				repeated := fd.GetLabel() == descriptorpb.FieldDescriptorProto_LABEL_REPEATED
+				switch fd.GetType() {
+				case tInt64, tUint64, tSint64, tFixed64, tSfixed64:
+					fd.Options.Jstype = []descriptorpb.FieldOptions_JSType{descriptorpb.FieldOptions_JS_STRING, descriptorpb.FieldOptions_JS_NUMBER, descriptorpb.FieldOptions_JS_NORMAL}[rng.Intn(3)].Enum()
+				case tString:
+					fd.Options.Ctype = []descriptorpb.FieldOptions_CType{descriptorpb.FieldOptions_CORD, descriptorpb.FieldOptions_STRING_PIECE}[rng.Intn(2)].Enum()
+				case tMessage:
+					if fd.OneofIndex == nil && !repeated {
+						fd.Options.Lazy = proto.Bool(true)
+					}
+				default:
+					if repeated && fd.Options.Packed == nil && fd.GetType() != tBytes {
+						fd.Options.Packed = proto.Bool(true)
+					}
+				}
+				if rng.Intn(3) == 0 {
+					fd.Options.Deprecated = proto.Bool(true)
+				}
+				if rng.Intn(3) == 0 {
+					fd.JsonName = proto.String("J" + fd.GetName() + ".x")
+				}
+			}
+		}
 		for _, m := range top {
 			f.MessageType = append(f.MessageType, m.msg)
+		}
+		// a service over the file's own messages
+		if rng.Intn(4) == 0 {
+			a, b := msgs[rng.Intn(len(msgs))], msgs[rng.Intn(len(msgs))]
+			f.Service = append(f.Service, &descriptorpb.ServiceDescriptorProto{Name: proto.String("Svc"), Method: []*descriptorpb.MethodDescriptorProto{
+				{Name: proto.String("Call"), InputType: proto.String(a.path), OutputType: proto.String(b.path)},
+				{Name: proto.String("Stream"), InputType: proto.String(b.path), OutputType: proto.String(a.path), ClientStreaming: proto.Bool(true), ServerStreaming: proto.Bool(true)},
+			}})
+		}
+		// comments of every placement, as protoc passes them on
+		if rng.Intn(3) == 0 {
+			f.SourceCodeInfo = commentEverything(f)
 		}
 		files := []*descriptorpb.FileDescriptorProto{f}
 		// every other schema has a second file in another Go package that uses the first one's types
@@ -145,7 +196,19 @@ func RandomSchemas(seed int64, n int) []*Schema {
 			f2.MessageType = append(f2.MessageType, u.msg)
 			files = append(files, f2)
 		}
-		out = append(out, &Schema{Name: name, Files: files, Tier: "thorough"})
+		sc := &Schema{Name: name, Files: files, Tier: "thorough"}
+		// the request: files listed in reverse, one invocation per file, or the feature list spelled out
+		switch rng.Intn(6) {
+		case 0:
+			if len(files) == 2 {
+				sc.Generate = []string{files[1].GetName(), files[0].GetName()}
+			}
+		case 1:
+			sc.PerFile = true
+		case 2:
+			sc.Param = "features=fast+protoc"
+		}
+		out = append(out, sc)
 	}
 	return out
 }
